@@ -33,6 +33,7 @@ import (
 	"net/url"
 	"os"
 	"reflect"
+	"runtime"
 	"sort"
 	"strconv"
 	"strings"
@@ -656,6 +657,9 @@ type reqObs struct {
 	Err   string `json:"err"`
 	Blen  int    `json:"blen"`
 	URL   string `json:"url"`
+	// diagnostics of a repeated round trip
+	Retried string `json:"retried,omitempty"`
+	Stacks  string `json:"stacks,omitempty"`
 }
 
 func midBody() []byte {
@@ -797,7 +801,7 @@ func rawDeclared(q *reqT, target string, n int, o *reqObs) (http.Header, []byte)
 	return resp.Header, body
 }
 
-func doReq(q *reqT) reqObs {
+func doReqOnce(q *reqT) reqObs {
 	o := reqObs{Inv: []int{}, Vars: []varB{}, Input: "na", Rbody: "na", Rl: "na", Ct: "none", Body: "empty"}
 	resetSlot()
 	target := requestURL(q)
@@ -877,6 +881,40 @@ func doReq(q *reqT) reqObs {
 		}
 	}
 	return o
+}
+
+// doReq makes the round trip.  A round trip that ends in a transport error (no answer within the client
+// timeout, connection refused ...) is made a second time after the server has answered a probe: when the
+// whole process was not scheduled for seconds (overloaded machine) the second attempt is answered, a
+// request the server really does not answer fails again and is recorded with its error.
+func doReq(q *reqT) reqObs {
+	t0 := time.Now()
+	o := doReqOnce(q)
+	if o.Err == "" {
+		return o
+	}
+	first := o.Err
+	took := time.Since(t0)
+	stacks := goroutineDump()
+	probeOK := false
+	if resp, err := client.Get(baseURL + "/api/v1/x07/selfcheck"); err == nil {
+		_ = resp.Body.Close()
+		probeOK = resp.StatusCode == http.StatusOK
+	}
+	o = doReqOnce(q)
+	o.Retried = fmt.Sprintf("first attempt failed after %s: %s; probe ok=%v", took.Round(time.Millisecond), first, probeOK)
+	o.Stacks = stacks
+	return o
+}
+
+func goroutineDump() string {
+	buf := make([]byte, 1<<20)
+	n := runtime.Stack(buf, true)
+	s := string(buf[:n])
+	if len(s) > 20000 {
+		s = s[:20000]
+	}
+	return s
 }
 
 type listObs struct {
